@@ -67,8 +67,23 @@ MaskedBasal(g) == /\ RootingOf(g) = 0 /\ Len(g.kids[g.seed]) = 2
                   /\ \A c \in KidSet(g, g.seed) : Len(g.kids[c]) <= 1
                   /\ \E c \in KidSet(g, g.seed) : Len(g.kids[c]) = 1
 
+\* calls the library documents as errors: a tree that is not ultrametric while node ages are collected, a tree over
+\* another namespace (its taxa are projected with codes >= 1000), a tree of the other rooting for a TreeArray
+Ultrametric(g) == \A x, y \in Leaves(g) : RootDist(g, x) = RootDist(g, y)
+RefusalOf(e) == IF \E x \in Nodes(e.g) : e.g.tx[x] >= 1000 THEN "foreign-namespace"
+                ELSE IF e.route = "ta.add_tree" /\ RootingOf(e.g) # e.r THEN "other-rooting"
+                ELSE IF e.ag /\ ~Ultrametric(e.g) THEN "not-ultrametric"
+                ELSE ""
+\* a refused call must leave the distribution exactly as it was (what was counted so far is still reported exactly)
+JudgeRefused(e, cur, why) ==
+    IF e.raised = "" THEN V("C05.FreqExact", "no-error-for-" \o why \o ":" \o e.route)
+    ELSE LET df == DistDiff(cur.D, FromJson(e.d)) IN
+         DiffVerdicts(df \ {"n"}, e, IF df \ {"n"} = {} THEN "" ELSE "state-changed-by-refused-call:" \o why)
+         \* total_trees_counted alone does not enter any reported frequency: counted, never failing
+         \o (IF df = {"n"} THEN V("drift:tree-count-after-refused-call", why) ELSE None)
 JudgeCount(e, cur) ==
     IF WFClause(e.g) # "ok" THEN V("C05.InputWellFormed", WFClause(e.g))
+    ELSE IF RefusalOf(e) # "" THEN JudgeRefused(e, cur, RefusalOf(e))
     ELSE IF e.raised # "" THEN V("C05.FreqExact", "raised:" \o e.raised \o ":" \o e.route)
     ELSE LET t == WithDl(AbsTree(e.g, -1, e.ag), e.dl)
              obs == FromJson(e.d)
@@ -246,7 +261,7 @@ Judge(e, s, pa) ==
 \* the state the trace has reached: resynchronised with what was logged
 After(e, s) ==
     LET obs == FromJson(e.d) IN
-    CASE e.action = "Count" /\ e.raised = "" /\ WFClause(e.g) = "ok" ->
+    CASE e.action = "Count" /\ e.raised = "" /\ WFClause(e.g) = "ok" /\ RefusalOf(e) = "" ->
              [s EXCEPT ![e.h] = [D |-> obs, trees |-> Append(@.trees, [t |-> AbsTree(e.g, -1, e.ag), w |-> EffW(Q(e.w), e.uw)])]]
       [] e.action = "Update" /\ e.raised = "" -> [s EXCEPT ![e.h] = [D |-> obs, trees |-> @.trees \o s[e.o].trees]]
       [] e.action = "Rebuild" /\ e.raised = "" -> [s EXCEPT ![e.h] = [D |-> obs, trees |-> s[e.o].trees]]
